@@ -196,15 +196,25 @@ Section CiDenote.
 
 End CiDenote.
 
-(* all of ASCII and all of pair_dom are admissible members under IgnoreCase *)
+(* all of ASCII and all of pair_dom are admissible members under IgnoreCase; exactly three runes of
+   the table are not *)
+Lemma bad_points_ok :
+  bad_pts = [215; 304; 7838] /\
+  forallb (fun x => zmem x good_dom) (ascii_dom ++ pair_dom) = true.
+Proof.
+  split; [vm_compute; reflexivity|].
+  change ((fun g => forallb (fun x => zmem x g) (ascii_dom ++ pair_dom)) good_dom = true).
+  vm_compute. reflexivity.
+Qed.
+
 Lemma ascii_good x : 0 <= x < 128 -> In x good_dom.
 Proof.
-  intros H. assert (G : forallb (fun x => zmem x good_dom) ascii_dom = true) by (vm_compute; reflexivity).
-  rewrite forallb_forall in G. apply zmem_In. apply G. apply in_ascii_dom. exact H.
+  intros H. pose proof (proj2 bad_points_ok) as G. rewrite forallb_forall in G.
+  apply zmem_In. apply G. apply in_or_app. left. apply in_ascii_dom. exact H.
 Qed.
 
 Lemma pair_good x : In x pair_dom -> In x good_dom.
 Proof.
-  intros H. assert (G : forallb (fun x => zmem x good_dom) pair_dom = true) by (vm_compute; reflexivity).
-  rewrite forallb_forall in G. apply zmem_In. apply G. exact H.
+  intros H. pose proof (proj2 bad_points_ok) as G. rewrite forallb_forall in G.
+  apply zmem_In. apply G. apply in_or_app. right. exact H.
 Qed.
